@@ -1,5 +1,5 @@
 #!/bin/bash
-cd /verif && ./setup.sh >/dev/null 2>&1
+./setup.sh >/dev/null 2>&1
 for p in C01 C02 C03 C04 C05 C06 C07 C08 C09 C10 C11 C12 C13 C14 C15 C16 C17 C18 C19 C20; do
   ./check $p --tier thorough 2>&1 | grep -E "^(OK|VIOLATION|KNOWN)" 
 done
